@@ -10,6 +10,7 @@ mod ri;
 mod tbl;
 mod util;
 mod wal;
+mod wf;
 
 use std::io::{BufRead, Write};
 
@@ -29,6 +30,7 @@ fn main() {
     let mut orc_engine: Option<orc::OrcEngine> = None;
     let mut cs_engine: Option<orc::CsEngine> = None;
     let mut ri_engine: Option<ri::Ri> = None;
+    let mut wf_engine: Option<wf::Wf> = None;
     let mut dmg_engine: Option<dmg::Dmg> = None;
     std::panic::set_hook(Box::new(|_| {}));
     for line in stdin.lock().lines() {
@@ -54,6 +56,7 @@ fn main() {
             }
             "dmg" => dmg_engine.get_or_insert_with(dmg::Dmg::new).cmd(&toks[1..]),
             "ri" => ri_engine.get_or_insert_with(ri::Ri::new).cmd(&toks[1..]),
+            "wf" => wf_engine.get_or_insert_with(wf::Wf::new).cmd(&toks[1..]),
             "e2" => {
                 if toks.len() > 2 && toks[1] == "newat" {
                     e2_engine = None;
